@@ -49,7 +49,7 @@ META = {
     "after its dependencies, overview resampling (rasterio warp), and the byte-stream assembly of the multi-part "
     "writer, which is property C06 (its theorem C06.main is assumed by name; that file bytes = header ++ tiles in "
     "stream order is checked here on every written file).  'Independent readers decode the original pixels' is "
-    "carried by the round trip, not by a theorem.",
+    "carried by the round trip, not by a theorem. Not yet mirrored in the Lean model (inventory of the anchor files): _tifffile._render_gdal_metadata / _stats_from_layer / _unwrap_stats (statistics values and XML text; only the XML LENGTH enters, via patchedHdrSize), _norm_predictor and _norm_compression_tifffile (codec / level / predictor normalisation: judged end to end by the lossless-unless-asked oracle and the codec probe), _mk_tile_compressor (choice of encoder / predictor functions), _pyramids_from_cog_metadata (overview resampling through odc.reproject), geotiff_metadata beyond the transform tags (GeoKey directory, GDAL_NODATA / GDAL_METADATA text), the repartition(npartitions // 4) of bags with more than 20 partitions (order-preserving: checked end to end by the order correspondence), cog_gbox, the S3 branch (MultiPartUpload) and MPUFileSink (file-system side: exercised by the sink interleaving stage, no Lean model; the byte-stream machinery itself is C06).",
     "technique": "Lean 4 proof over hand model + differential correspondence with real code + end-to-end decode",
     "design_ref": "DESIGN.md §4 C05",
 }
@@ -893,6 +893,11 @@ def e2e(cfg, workdir: str, tag: str, precomputed: bool = False, shared=None):
         page_shapes = [(p.imagelength, p.imagewidth) for p in pages]
         page_tiles = [(p.tilelength, p.tilewidth) for p in pages]
         tags = [(list(p.tags[324].value), list(p.tags[325].value)) for p in pages]
+        if cfg.get("dyadic", True):
+            a_ = gbox.transform
+            facts["geotags_line"] = "c05 geotags " + ";".join(frac_s(float(v)) for v in (a_.a, a_.b, a_.c, a_.d, a_.e, a_.f))
+            facts["geotags"] = " ".join(f"{code}=" + list_s([frac_s(float(x)) for x in pages[0].tags[code].value])
+                                        for code in (33550, 33922, 34264) if code in pages[0].tags)
         reduced = [bool(p.is_reduced) for p in pages]
         spp = [p.samplesperpixel for p in pages]
         tag_end = 0
@@ -1216,6 +1221,8 @@ def run_e2e(R: Run, cfg, workdir: str, tag: str, precomputed: bool = False, shar
     if "order" in facts:
         R.corr(facts["order_line"], lambda: facts["order"], sig=sig + "|order")
         R.corr(facts["patch_line"], lambda: facts["patch"], sig=sig + "|offsets")
+    if "geotags" in facts and "order" in facts:
+        R.corr(facts["geotags_line"], lambda: facts["geotags"], sig="geotags|" + facts["geotags"].split("=")[0])
     R.oracle(not fails, fails[0][0] if fails else "e2e", cfg, "; ".join(f"{k}: {w}" for k, w in fails[:4]), sig=sig)
     for k, w in fails[1:]:
         R.oracle(False, k, cfg, w, sig=sig)
@@ -1433,6 +1440,99 @@ def run(R: Run):
         hdr_case(shp, GeoBox(tuple(shp), A0, "epsg:4326"), [32])
     hdr_case([2, 8, 3], GeoBox((8, 3), A0, "epsg:4326"), [16])  # SYX, 3 pixels wide
     hdr_case([5, 5], None, [])  # blocksize[-1] of an empty list
+
+    # ---- _compress_tiles: what the source is re-chunked to, which block feeds which tile, which band is cut out of it
+    import dask  # pylint: disable=import-outside-toplevel
+    import dask.array as da_  # pylint: disable=import-outside-toplevel
+
+    for _ in range(R.pick(30, 400)):
+        ax = rng.choice(["YX", "YXS", "SYX", "SYX"])
+        ns = 1 if ax == "YX" else rng.randint(1, 5)
+        ny, nx = rng.randint(16, 60), rng.randint(16, 60)
+        bc = band_chunking(rng, ns)
+        bc_l = [bc] * (ns // bc) + ([ns % bc] if ns % bc else []) if isinstance(bc, int) else list(bc)
+        shp = (ny, nx) if ax == "YX" else ((ny, nx, ns) if ax == "YXS" else (ns, ny, nx))
+        pix = np.zeros(shp, dtype="int16")
+        if ax == "SYX":
+            pix += np.arange(ns, dtype="int16")[:, None, None]  # every pixel of band b holds b
+        ch_sp = (rng.choice([8, 16, 25]), rng.choice([8, 16, 25]))
+        ch = ch_sp if ax == "YX" else ((*ch_sp, tuple(bc_l)) if ax == "YXS" else (tuple(bc_l), *ch_sp))
+        try:
+            xx = wrap_xr(da_.from_array(pix, chunks=ch), GeoBox((ny, nx), Affine(1, 0, 0, 0, -1, 0), "epsg:3857"),
+                         **({"time": [f"20{i:02d}-01-01" for i in range(ns)]} if ax == "SYX" else {}))
+            meta, _ = T._make_empty_cog(shp, "int16", xx.odc.geobox, blocksize=[16])  # pylint: disable=protected-access
+            ndim = len(shp)
+            bcs = list_s(bc_l if ax != "YX" else [])
+            for s_ in range(meta.num_planes):
+                bag = T._compress_tiles(xx, meta, 0, s_)  # pylint: disable=protected-access
+                g = bag.__dask_graph__()
+                tasks = [t for layer in g.layers.values() for t in dict(layer).values()
+                         if isinstance(t, tuple) and len(t) == 4 and t[0] is T._compress_cog_tile]  # pylint: disable=protected-access
+                t_ = rng.choice(tasks)
+                key, (_, ps, ty_, tx_) = t_[2], t_[3]
+                real_key = (f"N {key[1]} {key[2]}" if ndim == 2 else (f"{key[3]} {key[1]} {key[2]}" if ax == "YXS" else f"{key[1]} {key[2]} {key[3]}"))
+                R.corr(f"c05 bname {ax} {ndim} {bcs} {ps} {ty_} {tx_}", lambda: real_key, sig=f"compress|bname|{ax}")
+                name = key[0]
+                if ax == "SYX":
+                    kbs = sorted({k[1] for k in g.keys() if isinstance(k, tuple) and k[0] == name})
+                    blocks = {kb: dask.get(g, (name, kb, 0, 0)) for kb in kbs}
+                    R.corr(f"c05 cchunks {ax} {ndim} {ns} {bcs} 16 16",
+                           lambda: f"{list_s([blocks[kb].shape[0] for kb in kbs])} {blocks[kbs[0]].shape[1]} {blocks[kbs[0]].shape[2]}", sig="compress|chunks|SYX")
+                    blk_ = dask.get(g, key)
+                    raw = T._cog_block_compressor_syx(blk_, tile_shape=(16, 16), encoder=None, sample_idx=ps)  # pylint: disable=protected-access
+                    band_ = int(np.frombuffer(raw, dtype="int16")[0])
+                    R.corr(f"c05 srcband {ns} {bcs} {ps}", lambda: str(band_), sig="compress|srcband")
+                    R.oracle(band_ == ps, "tile-cut-from-wrong-band", {"ns": ns, "band_chunks": bc_l, "plane": ps},
+                             f"the tile of plane {ps} was cut from source band {band_}", sig="compress|srcband")
+                elif ax == "YXS":
+                    b0 = dask.get(g, (name, 0, 0, 0))
+                    R.corr(f"c05 cchunks {ax} {ndim} {ns} {bcs} 16 16", lambda: f"[{b0.shape[2]}] {b0.shape[0]} {b0.shape[1]}", sig="compress|chunks|YXS")
+        except Exception as e:  # pylint: disable=broad-except
+            R.oracle(False, f"compress-tiles-raises:{type(e).__name__}", {"axis": ax, "ns": ns, "band_chunks": bc_l, "shape": list(shp)},
+                     f"{type(e).__name__}: {str(e)[:160]}", sig="compress")
+
+    # ---- grouping of the bags handed to mpu_write (first four reversed bags concatenated) and the patched header size
+    for _ in range(R.pick(5, 60)):
+        ns = rng.randint(1, 4)
+        ny, nx = rng.choice([(20, 20), (40, 20), (70, 40), (130, 20)])
+        shp = (ny, nx) if ns == 1 else (ns, ny, nx)
+        pix = (np.arange(int(np.prod(shp))) % 251).astype("uint8").reshape(shp)
+        xx = wrap_xr(da_.from_array(pix, chunks=(16, 16) if ns == 1 else (1, 16, 16)), GeoBox((ny, nx), Affine(1, 0, 0, 0, -1, 0), "epsg:3857"),
+                     **({"time": [f"20{i:02d}-01-01" for i in range(ns)]} if ns > 1 else {}))
+        rec = []
+        orig = T.mpu_write
+        T.mpu_write = lambda chunks, *a, **k: rec.append(chunks) or "recorded"
+        try:
+            T.save_cog_with_dask(xx, "/nonexistent/recorded.tif", blocksize=[16], compression="zstd", stats=False)
+        except Exception as e:  # pylint: disable=broad-except
+            rec = None
+            R.oracle(False, f"save-cog-raises:{type(e).__name__}@graph", {"shape": list(shp)}, str(e)[:160], sig="baggroups")
+        finally:
+            T.mpu_write = orig
+        if rec:
+            planes = ns if ns > 1 else 1
+            groups = []
+            for bag in rec[0]:
+                seq = []
+                for _, (sc, p_, _, _) in bag.compute(scheduler="synchronous"):
+                    if not seq or seq[-1] != sc * planes + p_:
+                        seq.append(sc * planes + p_)
+                groups.append(seq)
+            n_bags = max(max(g_) for g_ in groups) + 1
+            R.corr(f"c05 baggroups {n_bags}", lambda: list_s(groups, lambda g_: list_s(g_)), sig="baggroups|" + ("concat" if n_bags > 4 else "plain"))
+            flat = [i for g_ in groups for i in g_]
+            R.oracle(sorted(flat) == list(range(n_bags)) and len(flat) == n_bags, "bag-not-written-exactly-once", {"shape": list(shp), "groups": groups},
+                     f"bags streamed: {groups}", sig="baggroups")
+        # header size with statistics
+        try:
+            meta, hdr0 = T._make_empty_cog(shp, "uint8", xx.odc.geobox, blocksize=[16], gdal_metadata="", bigtiff=rng.random() < 0.6)  # pylint: disable=protected-access
+            hdr0 = bytes(hdr0)
+            st_ = [{"minimum": 1.0, "maximum": float(rng.randint(2, 10**6)), "mean": 1.5, "stddev": 0.25, "valid_percent": 100.0}] * ns
+            xml = T._render_gdal_metadata(st_, precision=6)  # pylint: disable=protected-access
+            R.corr(f"c05 hdrsz {len(hdr0)} 1;{len(xml)}", lambda: str(len(T._patch_hdr([], meta, hdr0, st_))), sig="hdrsz|stats")  # pylint: disable=protected-access
+            R.corr(f"c05 hdrsz {len(hdr0)} N", lambda: str(len(T._patch_hdr([], meta, hdr0, None))), sig="hdrsz|plain")  # pylint: disable=protected-access
+        except Exception as e:  # pylint: disable=broad-except
+            R.oracle(False, f"patch-hdr-raises:{type(e).__name__}", {"shape": list(shp)}, str(e)[:160], sig="hdrsz")
 
     # ---- tile padding in the block compressors (no encoder → raw bytes of the padded block)
     for _ in range(R.pick(150, 1500)):
